@@ -27,7 +27,9 @@ ASSUMPTIONS = [
     "targets of the pattern space are over {A,C,G}; IUPAC letter semantics are covered by the complete letter table",
 ]
 ATOMS = ["A", "C", "N", "R", "N*", "N*?", "A*"]
-KINDS = ["seq-linear", "seq-circular", "rec-linear", "rec-circular", "circularrecord"]
+KINDS = ["seq-linear", "seq-circular", "rec-linear", "rec-circular", "circularrecord",
+         # the same text in the other containers a target may come in (never on the full range grid)
+         "rec-mutable-circular", "circularrecord-mutable", "circularrecord-annotated", "rec-annotated-linear"]
 
 
 ALL5 = ["seq-linear", "seq-circular", "rec-linear", "rec-circular", "circularrecord"]
@@ -130,9 +132,16 @@ def make_target(kind, s):
 def make_targets(s):
     seq = Seq(s)
     rec = SeqRecord(seq, id="t")
+    from Bio.Seq import MutableSeq
+    n = len(s)
+    ann = SeqRecord(seq, id="t", features=gen.decorations(n), letter_annotations={"idx": list(range(n))}, annotations={"topology": "linear"})
     return {"seq-linear": (seq, dict(linear=True), False), "seq-circular": (seq, dict(linear=False), True),
             "rec-linear": (rec, dict(linear=True), False), "rec-circular": (rec, dict(linear=False), True),
-            "circularrecord": (CircularRecord(rec), dict(), True)}
+            "circularrecord": (CircularRecord(rec), dict(), True),
+            "rec-mutable-circular": (SeqRecord(MutableSeq(s), id="t"), dict(linear=False), True),
+            "circularrecord-mutable": (CircularRecord(MutableSeq(s), id="t"), dict(), True),
+            "circularrecord-annotated": (gen.contained(s, "annotated", "t"), dict(), True),
+            "rec-annotated-linear": (ann, dict(), False)}
 
 
 def text_of(x):
